@@ -17,6 +17,15 @@ A *program* (JSON-able dict) belongs to a small family:
                                     "handler has not returned" block are unchanged
            ['err']                  ERROR 77              (only when errh is given)
            ['ret']                  RETURN
+           ['retto', target]        RETURN <line>: leaves the handler like RETURN (the trap is re-enabled at this
+                                    statement), execution continues at the target line instead
+           ['gosub']                GOSUB to the common subroutine prog['sub'] (an ordinary GOSUB level: its RETURN
+                                    neither ends the handler nor re-enables anything)
+           ['resumeto', target]     RESUME <line> in the error handler: when the error happened inside an event
+                                    handler this LEAVES the handler without a RETURN - it has not returned, so the
+                                    trap stays blocked
+                                    target: 'END' (the END line) or 'TAGk' (the k-th tagged PRINT of the main part
+                                    counted from its end)
            ['resume']               RESUME NEXT
            ['end']                  END
 
@@ -68,7 +77,29 @@ def flatten(prog):
     if prog.get('errh'):
         estart = len(stmts)
         stmts.extend(prog['errh'])
-    return stmts, starts, estart, ndefs
+    sub_start = None
+    if prog.get('sub'):
+        sub_start = len(stmts)
+        stmts.extend(prog['sub'])
+    # resolve symbolic targets
+    main_lo, main_hi = ndefs, ndefs + len(prog['main'])
+    tags = [i for i in range(main_lo, main_hi) if stmts[i][0] == 'tag']
+
+    def resolve(sym):
+        if sym == 'END' or not tags:
+            return main_hi
+        k = int(sym[3:])
+        return tags[max(0, len(tags) - k)]
+
+    out = []
+    for st in stmts:
+        if st[0] in ('retto', 'resumeto'):
+            out.append([st[0], st[1], resolve(st[1])])
+        elif st[0] == 'gosub':
+            out.append(['gosub', sub_start])
+        else:
+            out.append(st)
+    return out, starts, estart, ndefs
 
 
 class Chooser(object):
@@ -108,6 +139,7 @@ def simulate(prog, schedule, chooser, post_tags=('zz',), max_steps=400):
     pending = dict((n, False) for n in names)       # False / True / 'maybe'
     how = dict((n, None) for n in names)            # when the remembered occurrence arrived
     blocked = dict((n, False) for n in names)
+    left_by_line = dict((n, False) for n in names)  # the handler has been left through RETURN <line> before
     lost = dict((n, False) for n in names)          # an occurrence has been lost while off (sticky; diagnosis only)
     stack = []
     in_error = False
@@ -119,7 +151,9 @@ def simulate(prog, schedule, chooser, post_tags=('zz',), max_steps=400):
              'during_error': 0, 'reentry_after_on': 0, 'simultaneous': 0, 'after_end': 0,
              'pending_at_off': 0, 'coalesced': 0, 'nested_depth': 0, 'entries_after_stop_on': 0,
              'unhandled_at_end': 0, 'unpinned_stop_while_off': 0,
-             'redefinitions': 0, 'redefinitions_in_nontrivial_state': 0}
+             'redefinitions': 0, 'redefinitions_in_nontrivial_state': 0, 'handlers_left_by_return_line': 0,
+             'plain_gosub_levels_inside_handler': 0, 'handlers_abandoned_by_resume_line': 0,
+             'entries_after_return_line': 0}
     b = 0
     while True:
         b += 1
@@ -175,6 +209,8 @@ def simulate(prog, schedule, chooser, post_tags=('zz',), max_steps=400):
                 pending[n] = False
                 if how[n] == 'stop':
                     stats['entries_after_stop_on'] += 1
+                if left_by_line[n]:
+                    stats['entries_after_return_line'] += 1
                 if any(f[1] == n for f in stack):
                     stats['reentry_after_on'] += 1
                 blocked[n] = True
@@ -217,8 +253,25 @@ def simulate(prog, schedule, chooser, post_tags=('zz',), max_steps=400):
             pc = resume_pc + 1
         elif op == 'ret':
             rpc, n = stack.pop()
-            blocked[n] = False
+            if n is not None:
+                blocked[n] = False
             pc = rpc
+        elif op == 'retto':
+            rpc, n = stack.pop()
+            if n is not None:
+                blocked[n] = False
+                stats['handlers_left_by_return_line'] += 1
+                left_by_line[n] = True
+            pc = st[2]
+        elif op == 'gosub':
+            stack.append((pc + 1, None))
+            stats['plain_gosub_levels_inside_handler'] += 1 if any(f[1] is not None for f in stack) else 0
+            pc = st[1]
+        elif op == 'resumeto':
+            in_error = False
+            if any(f[1] is not None for f in stack):
+                stats['handlers_abandoned_by_resume_line'] += 1
+            pc = st[2]
         elif op == 'end':
             break
         else:
